@@ -4,7 +4,8 @@ from .. import fam_pipeline as fp
 from .. import gen_models as gm
 from .. import pipeline as pl
 
-THEOREMS = ["C08.dispatch_total", "C08.shipped_load_ok", "C08.shipped_star_only", "C08.shipped_configs_accepted_somewhere"]
+THEOREMS = ["C08.dispatch_total", "C08.shipped_load_ok", "C08.shipped_star_only", "C08.shipped_configs_accepted_somewhere",
+            "C08.performer_total", "C08.modify_total", "C08.genInsts_total", "C08.modify_total_wf"]
 
 
 def gen(rng, i):
@@ -23,7 +24,7 @@ def run(ctx):
     ctx.explanation = ("Proved: the materialisation dispatch of the model covers every registered (algorithm, op, function) of the live registry, "
                        "shipped recipes load, consist of '*' rules only and carry configs the policy accepts for at least one op. The totality "
                        "theorem proper (no raise site reachable) is not proved; rejection-freedom is established by execution on generated models.")
-    common.proof_side(ctx, THEOREMS)
+    common.proof_side(ctx, THEOREMS, modules=["QProps.C08", "QProps.C08b"])
     drv = common.Driver()
 
     def per_case(case, res):
